@@ -153,6 +153,7 @@ func genC15(r *core.Rand, run int) *MuxScenario {
 		{"grpcweb", "proto", "unary"}, {"grpcweb", "proto", "server"}, {"grpcweb", "proto", "bidi"}, {"grpcwebtext", "proto", "bidi"},
 		{"http", "json", "unary"}, {"http", "json", "client"}, {"http", "json", "server"}, {"http", "json", "bidi"}, {"http", "proto", "bidi"}, {"http", "proto", "client"},
 		{"ws", "json", "chat"}, {"ws", "json", "bidi"},
+		{"http", "body", "files"},
 	}
 	c := combos[r.Intn(len(combos))]
 	sp := ReqSpec{ID: 1, Proto: c.proto, Codec: c.codec, Method: c.method, Weight: 2}
@@ -203,6 +204,18 @@ func genC15(r *core.Rand, run int) *MuxScenario {
 	}
 	sp.ZeroReads = r.Chance(1, 5)
 	sp.EOFData = r.Chance(1, 4)
+	if c.proto == "http" && r.Chance(1, 2) {
+		sp.Fault.Err = "ueof" // HTTP/1.1: the broken body reads as io.ErrUnexpectedEOF
+	}
+	if c.codec == "body" {
+		// an upload in chunks of the receive limit; the handler reads chunk by chunk
+		sp.PathVar = "cat.jpg"
+		sp.Msgs = []MsgSpec{{Size: r.Pick(1, 63, 64, 65, 200, 700), Seed: r.U64() >> 8}}
+		sc.Knobs.MaxRecv = r.Pick(64, 100, 256)
+		sp.Handler.Steps = [][]HStep{{{Op: "recvall"}, {Op: "sendall"}}, {{Op: "recvall"}, {Op: "waitctx"}, {Op: "sendall"}}}[r.Intn(2)]
+		sp.Handler.Resps = sp.Handler.Resps[:1]
+		sp.PingPong = false
+	}
 	sc.Reqs = []ReqSpec{sp}
 	return sc
 }
